@@ -9,7 +9,7 @@ lemma is itself a violation and the sites that rest on it are listed with it.
 import re
 from ..core import ordrules, pan, terms, tab
 from ..core.facts import callee_name, norm_name
-from ..core.prog import canon, short, alloc_site, Prog
+from ..core.prog import canon, short, alloc_site, selection_of, sel_re, Prog
 
 TESTDATA = "data_row_iterator::DataRowIteratorTestData"
 
@@ -1003,9 +1003,46 @@ class Lemmas:
         return c01.counter_lemma(self.P, self.chk)
 
 
+def _bool_rows(pt):
+    """A boolean closure's table as decision rows: a row whose result is itself a test `f(..)` (the tail of `a && f(..)`)
+    is the two rows f true -> 1, f false -> 0."""
+    out = set()
+    for facts, shape in pt:
+        if shape in ("0", "1"):
+            out.add((facts, shape))
+        elif isinstance(shape, str) and re.match(r"^[A-Za-z_][\w:<>\[\], ]*\(", shape) and not shape.startswith("Not("):
+            out.add((frozenset(set(facts) | {(shape, True)}), "1"))
+            out.add((frozenset(set(facts) | {(shape, False)}), "0"))
+        else:
+            out.add((facts, shape))
+    return out
+
+
 def selector_ok(P, cl, variant):
-    """closure(|(i, entry)|) returns Some(i) iff entry == <variant> && self.entry_is_input(i)."""
+    """closure(|(i, entry)|) returns Some(i) iff entry == <variant> && self.entry_is_input(i) — written as one
+    `filter_map`/`find_map` closure, or as `filter(|(i, entry)| ..)` followed by `map(|(i, _)| i)`."""
     pt = tab.predicate_table(P, cl)
+    use = P.closure_use(cl)
+    use_nm = use[0] if use else ""
+    sibs = [c for c in P.f.closures_of(cl.parent)] if getattr(cl, "parent", None) else []
+    if use_nm == "std::iter::Iterator::map":
+        # the projection half of filter(..).map(|(i, _)| i): judged together with its filter closure
+        rows = sorted(pt, key=str)
+        m = re.fullmatch(r"elem\(Iterator::filter\(.*, closure\((\{closure#\d+\})\)\)\)\.0", rows[0][1]) if len(rows) == 1 and not rows[0][0] else None
+        if m and any(c.name.endswith(m.group(1)) and (P.closure_use(c) or [""])[0] == "std::iter::Iterator::filter" for c in sibs):
+            return (True, "projection `.0` of the elements kept by filter %s" % m.group(1))
+        return (False, rows)
+    if use_nm == "std::iter::Iterator::filter":
+        me = "{closure#%s}" % cl.name.rsplit("#", 1)[-1].rstrip("}")
+        proj = False
+        for c in sibs:
+            if (P.closure_use(c) or [""])[0] == "std::iter::Iterator::map":
+                r_ = sorted(tab.predicate_table(P, c), key=str)
+                if len(r_) == 1 and not r_[0][0] and re.fullmatch(r"elem\(Iterator::filter\(.*, closure\(%s\)\)\)\.0" % re.escape(me), r_[0][1]):
+                    proj = True
+        if not proj:
+            return (False, "filter %s is not followed by the projection map(|(i, _)| i)" % me)
+        pt = set((f_, {"1": "Some(?)", "0": "None"}.get(s_, s_)) for f_, s_ in _bool_rows(pt))
     norm = set()
     for facts, shape in pt:
         nf = []
@@ -1023,6 +1060,8 @@ def selector_ok(P, cl, variant):
         r = terms.strip(pi.ret())
         if r[0] == "agg" and r[2].endswith("Option::Some"):
             pay.add(re.sub(r"^elem\(.*\)\.0$", "E.0", canon(r[3][0][1])))
+    if use_nm == "std::iter::Iterator::filter":
+        pay = {"E.0"}     # the projection half was matched above
     return (norm == want and pay == {"E.0"}, sorted(norm, key=str))
 
 
@@ -1101,7 +1140,7 @@ def r_sigidx(P, L, s, d):
     fn = s.body.name
     if fn.startswith(TESTDATA + "::") and SIGIDX_INDEX.match(ip[1]):
         return (L.need("SIGIDX"), "index is a stored EntryIndex.signal_index of this iterator's test case; lemma SIGIDX")
-    if fn.startswith(TESTDATA + "::build_output_indices") and ip[1] == "elem([T]::iter(read_outputs))":
+    if fn.startswith(TESTDATA + "::build_output_indices") and re.fullmatch(r"elem\((Iterator::filter\()?\[T\]::iter\(read_outputs\)(, closure\(\{closure#\d+\}\)\))?\)", ip[1]):   # an element that passed a filter is still an element
         return (L.need("SIGIDX"), "index is an element of test_case.read_outputs (positions in the signal list); lemma SIGIDX")
     if fn.startswith("static_test::<impl TestCase>::try_iter_static") and ip[1] == "elem([T]::iter(self.read_outputs))":
         return (L.need("SIGIDX"), "index is an element of self.read_outputs; lemma SIGIDX")
@@ -1154,12 +1193,20 @@ def r_rowwidth(P, L, s, d):
                 good = rets == {"phi(Option::None{} | Option::Some{0: elem(Iterator::rev(Iterator::enumerate([T]::iter(Option::expect([T]::last(self.cache), '_').entries)))).0})"}
             return (good and L.need("STK"), "index is the enumerate index found in last(cache).entries, and the row popped next is that same row (LIFO)")
     if fn == TESTDATA + "::expand_c" and m:
-        if re.fullmatch(r"some!\(Iterator::next\((?:IntoIterator::into_iter|\[T\]::iter)\(Iterator::collect\(Iterator::filter_map\(Iterator::enumerate\(\[T\]::iter\(" + row + r"\.entries\)\), closure\(\{closure#0\}\)\)\)\)\)\)", idx):
-            cl = P.body(fn + "::{closure#0}")
+        ENUM = r"Iterator::enumerate\(\[T\]::iter\(" + row + r"\.entries\)\)"
+        if re.fullmatch(r"some!\(Iterator::next\((?:IntoIterator::into_iter|\[T\]::iter)\(Iterator::collect\(" + sel_re(ENUM) + r"\)\)\)\)", idx):
             good = False
-            if cl is not None:
-                rets = set(canon(P.resolve(cl, P.sl(cl).ret(rb))) for rb in P.cfg(cl).return_blocks())
-                good = len(rets) == 1 and re.fullmatch(r"phi\(Option::None\{\} \| Option::Some\{0: elem\(Iterator::enumerate\(\[T\]::iter\(" + row + r"\.entries\)\)\)\.0\}\)", list(rets)[0]) is not None
+            if "Iterator::filter_map(" in idx:
+                cl = P.body(fn + "::{closure#0}")
+                if cl is not None:
+                    rets = set(canon(P.resolve(cl, P.sl(cl).ret(rb))) for rb in P.cfg(cl).return_blocks())
+                    good = len(rets) == 1 and re.fullmatch(r"phi\(Option::None\{\} \| Option::Some\{0: elem\(" + ENUM + r"\)\.0\}\)", list(rets)[0]) is not None
+            else:
+                # filter(..).map(|(i, _)| i): the projected value is the enumerate index of a kept element
+                for cl in P.f.closures_of(fn):
+                    if (P.closure_use(cl) or [""])[0] == "std::iter::Iterator::map":
+                        rets = set(canon(P.resolve(cl, P.sl(cl).ret(rb))) for rb in P.cfg(cl).return_blocks())
+                        good = len(rets) == 1 and re.fullmatch(r"elem\(Iterator::filter\(" + ENUM + r", closure\(\{closure#\d+\}\)\)\)\.0", list(rets)[0]) is not None
             return (good, "index is an enumerate index collected from this same row's entries")
         if ENTRY_INDEX.match(idx):
             return (L.need("ROWWIDTH"), "entry_index of an expected index, a header position; lemma ROWWIDTH")
@@ -1489,8 +1536,8 @@ def r_try_static(P, L, s, d):
             for (b, bb, i, st) in P.constructors("std::result::Result::Err", include_derived=False):
                 if b is boi:
                     gg = guards_at(P, boi, bb)
-                    miss = any(x[0] == "call" and x[1] == "Vec::is_empty" and x[3] is False and re.fullmatch(r"Iterator::collect\(Iterator::filter_map\(\[T\]::iter\(read_outputs\), closure\(\{closure#\d+\}\)\)\)", x[2][0]) for x in gg)
-        return (empty and only and miss and r_uninhabited_noerror(P), "guarded by read_outputs.is_empty(); try_new fails only via the driver (uninhabited error) or a non-empty filter_map over read_outputs")
+                    miss = any(x[0] == "call" and x[1] == "Vec::is_empty" and x[3] is False and selection_of(x[2][0], "[T]::iter(read_outputs)") for x in gg)
+        return (empty and only and miss and r_uninhabited_noerror(P), "guarded by read_outputs.is_empty(); try_new fails only via the driver (uninhabited error) or a non-empty selection (filter / filter_map / map) of read_outputs")
     return None
 
 
